@@ -7,6 +7,7 @@ package main
 // overflow or a wedge is observed rather than suffered.
 
 import (
+	"testing/fstest"
 	"bufio"
 	"context"
 	"fmt"
@@ -326,7 +327,23 @@ func c05Tasks(repo string, seed int64, tier string) []c05task {
 	for _, s := range strs {
 		ts = append(ts, c05task{"query", s, "", nil}, c05task{"exec", s, "", nil})
 	}
+	// loads that lead back to the text being loaded (the interpreter is given the file system c05CycleFS)
+	for _, q := range []string{"consult(a).", "ensure_loaded(a).", "[a, b].", "consult(self).", "ensure_loaded(self).", "consult(selfc).",
+		"consult(init).", "ensure_loaded(tri1).", "consult(missing).", "ensure_loaded(a), ensure_loaded(b), fa, fb."} {
+		ts = append(ts, c05task{"cycle", q, "", nil})
+	}
 	return ts
+}
+
+var c05CycleFS = fstest.MapFS{
+	"a.pl":     &fstest.MapFile{Data: []byte(":- ensure_loaded(b).\nfa.\n")},
+	"b.pl":     &fstest.MapFile{Data: []byte(":- ensure_loaded(a).\nfb.\n")},
+	"self.pl":  &fstest.MapFile{Data: []byte(":- ensure_loaded(self).\nfs.\n")},
+	"selfc.pl": &fstest.MapFile{Data: []byte("fc.\n:- initialization(ensure_loaded(selfc)).\n")},
+	"init.pl":  &fstest.MapFile{Data: []byte(":- initialization(ensure_loaded(a)).\nfi.\n")},
+	"tri1.pl":  &fstest.MapFile{Data: []byte(":- ensure_loaded(tri2).\nt1.\n")},
+	"tri2.pl":  &fstest.MapFile{Data: []byte(":- ensure_loaded(tri3).\nt2.\n")},
+	"tri3.pl":  &fstest.MapFile{Data: []byte(":- ensure_loaded(tri1).\nt3.\n")},
 }
 
 func (r *rng) shuffle(n int, swap func(i, j int)) {
@@ -392,8 +409,11 @@ func c05RunTask(t c05task) (string, bool, string) {
 	defer cancel()
 	ctx := newStepCtx(wall, 20000)
 	switch t.kind {
-	case "goal", "query":
+	case "goal", "query", "cycle":
 		p := prolog.New(nil, nil)
+		if t.kind == "cycle" {
+			p.FS = c05CycleFS
+		}
 		out := runQueryCtx(ctx, p, 3, t.names, t.text)
 		if m := c05Render(out.Raw); m != "" {
 			return "error-value-panics-when-rendered", true, m
@@ -637,7 +657,7 @@ func runC05(outDir string, seed int64, tier string, repo string) {
 	for i := 0; i < len(ts) && len(sum.Samples) < 10; i += len(ts)/10 + 1 {
 		sum.Samples = append(sum.Samples, ts[i].kind+": "+ts[i].text)
 	}
-	sum.Rule = "every predicate registered in interpreter.go or defined by bootstrap.pl (read from the sources of this run; halt/0,1 excluded) x argument shapes (unbound, atoms, [] , integers incl. both 64-bit extremes, floats, compounds, pairs, indicators, proper/partial/improper lists, string, stream alias and stream term, nested callables, {}): all shapes for arity 1, all pairs for arity 2 (quick: 330 sampled pairs per predicate), sampled tuples above; every argument position of every predicate of arity 1-3 with seven integers whose product with a small element size wraps around (k*2^60+j, 2^32), the others unbound, an atom or a partial list; every string over a 39-symbol alphabet of significant bytes and characters of every Unicode class the lexer distinguishes (non-ASCII digits, other numbers, upper/title case, special spaces) up to length 2, sampled longer ones (thorough: all of length 3), every truncation and random one-byte mutations of four valid texts, each as query text and as program text; every task in a fresh interpreter inside an isolated worker process with a memory limit, a step budget and a 15 s watchdog; non-trivial = the task does something other than fail or be rejected"
+	sum.Rule = "every predicate registered in interpreter.go or defined by bootstrap.pl (read from the sources of this run; halt/0,1 excluded) x argument shapes (unbound, atoms, [] , integers incl. both 64-bit extremes, floats, compounds, pairs, indicators, proper/partial/improper lists, string, stream alias and stream term, nested callables, {}): all shapes for arity 1, all pairs for arity 2 (quick: 330 sampled pairs per predicate), sampled tuples above; every argument position of every predicate of arity 1-3 with seven integers whose product with a small element size wraps around (k*2^60+j, 2^32), the others unbound, an atom or a partial list; every string over a 39-symbol alphabet of significant bytes and characters of every Unicode class the lexer distinguishes (non-ASCII digits, other numbers, upper/title case, special spaces) up to length 2, sampled longer ones (thorough: all of length 3), every truncation and random one-byte mutations of four valid texts, each as query text and as program text; loads through a file system whose files load each other in cycles of length 1-3 (ensure_loaded, consult, initialization); every task in a fresh interpreter inside an isolated worker process with a memory limit, a step budget and a 15 s watchdog; non-trivial = the task does something other than fail or be rejected"
 	sum.write(outDir, start)
 }
 
